@@ -22,6 +22,8 @@ import (
 	"github.com/google/badwolf/storage/memoization"
 	"github.com/google/badwolf/storage/memory"
 	"github.com/google/badwolf/triple"
+	"github.com/google/badwolf/triple/node"
+	"github.com/google/badwolf/triple/predicate"
 )
 
 // ---------------------------------------------------------------------------
@@ -536,18 +538,178 @@ func c19FaultThenRead(r *rt.Rec, rng *rand.Rand, n int) {
 	}
 }
 
+
+// ---------------------------------------------------------------------------
+// (d) key confusion: within one cache generation (no write) every lookup method
+// is called with arguments that carry the same identifiers in different roles
+// (a node as subject and as object, a predicate as predicate and as reified
+// object) and with option values that differ in exactly one field; each call is
+// made twice (miss, then hit) in shuffled order and compared with the plain store.
+
+func c19ConfusionOptions() []*storage.LookupOptions {
+	t1, t2, t2z, t3 := gen.T1, gen.T2, gen.T2Z, gen.T3
+	whole := gen.T3.Truncate(time.Second)
+	fo := func(op filter.Operation, f filter.Field) *storage.LookupOptions {
+		return &storage.LookupOptions{FilterOptions: &filter.StorageOptions{Operation: op, Field: f}}
+	}
+	return []*storage.LookupOptions{
+		storage.DefaultLookup,
+		{MaxElements: 1}, {MaxElements: 2}, {MaxElements: 1, Offset: 1}, {MaxElements: 1, Offset: 2}, {MaxElements: 2, Offset: 1},
+		{LowerAnchor: &t1}, {LowerAnchor: &t2}, {LowerAnchor: &t2z}, {UpperAnchor: &t2}, {UpperAnchor: &t1}, {UpperAnchor: &t3}, {UpperAnchor: &whole},
+		{LowerAnchor: &t1, UpperAnchor: &t2}, {LowerAnchor: &t2, UpperAnchor: &t1}, {LowerAnchor: &t2, UpperAnchor: &t2},
+		{LatestAnchor: true}, {LatestAnchor: true, MaxElements: 1},
+		fo(filter.Latest, filter.PredicateField), fo(filter.Latest, filter.ObjectField),
+		fo(filter.IsImmutable, filter.PredicateField), fo(filter.IsImmutable, filter.ObjectField),
+		fo(filter.IsTemporal, filter.PredicateField), fo(filter.IsTemporal, filter.ObjectField),
+	}
+}
+
+func c19KeyConfusion(r *rt.Rec, rng *rand.Rand, rounds int) {
+	ctx := context.Background()
+	ns := gen.VNodes[:3]
+	ps := []*predicate.Predicate{gen.MustImm("p"), gen.MustImm("q"), gen.MustTemp("p", gen.T1), gen.MustTemp("p", gen.T2), gen.MustTemp("q", gen.T3)}
+	var os []*triple.Object
+	for _, n := range ns {
+		os = append(os, triple.NewNodeObject(n))
+	}
+	for _, p := range ps[:4] {
+		os = append(os, triple.NewPredicateObject(p))
+	}
+	os = append(os, triple.NewLiteralObject(gen.VLits[3]), triple.NewLiteralObject(gen.VLits[8]))
+	for round := 0; round < rounds; round++ {
+		// data: a random 60% of the full product, so that answers differ between roles
+		var data []*triple.Triple
+		for _, s := range ns {
+			for _, p := range ps {
+				for _, o := range os {
+					if rng.Intn(10) < 6 {
+						data = append(data, gen.MustTriple(s, p, o))
+					}
+				}
+			}
+		}
+		plain := memory.NewStore()
+		wrapped := memoization.New(memory.NewStore())
+		pg, _ := plain.NewGraph(ctx, "?g")
+		wg, _ := wrapped.NewGraph(ctx, "?g")
+		wg2, _ := wrapped.Graph(ctx, "?g")
+		pg.AddTriples(ctx, data)
+		wg.AddTriples(ctx, data)
+		type probe struct {
+			q  ref.Query
+			lo *storage.LookupOptions
+		}
+		var probes []probe
+		los := c19ConfusionOptions()
+		for _, m := range ref.Methods {
+			us, up, uo := ref.Uses(m)
+			S, P, O := []*node.Node{nil}, []*predicate.Predicate{nil}, []*triple.Object{nil}
+			if us {
+				S = ns
+			}
+			if up {
+				P = ps
+			}
+			if uo {
+				O = os
+			}
+			for _, s := range S {
+				for _, p := range P {
+					for _, o := range O {
+						for _, lo := range los {
+							probes = append(probes, probe{ref.Query{Method: m, S: s, P: p, O: o}, lo})
+						}
+					}
+				}
+			}
+		}
+		// the plain store's answers, and how many distinct answers share one
+		// (argument identifiers, options) signature across methods / roles
+		want := make([]string, len(probes))
+		werr := make([]bool, len(probes))
+		bySig := map[string]map[string]bool{}
+		for i, pb := range probes {
+			res, err, _ := ref.Call(ctx, pg, pb.q, ref.CopyOptions(pb.lo))
+			want[i], werr[i] = strings.Join(res, "\x1c"), err != nil
+			var ids []string
+			if pb.q.S != nil {
+				ids = append(ids, pb.q.S.UUID().String())
+			}
+			if pb.q.P != nil {
+				ids = append(ids, pb.q.P.UUID().String())
+			}
+			if pb.q.O != nil {
+				ids = append(ids, pb.q.O.UUID().String())
+			}
+			sig := strings.Join(ids, ":") + "|" + ref.OptionsString(pb.lo)
+			if bySig[sig] == nil {
+				bySig[sig] = map[string]bool{}
+			}
+			bySig[sig][want[i]] = true
+		}
+		confusable := 0
+		for _, answers := range bySig {
+			if len(answers) > 1 {
+				confusable++
+			}
+		}
+		r.Count("confusable_signatures", confusable)
+		for pass := 0; pass < 3; pass++ {
+			order := rng.Perm(len(probes))
+			for _, i := range order {
+				pb := probes[i]
+				h := wg
+				if pass == 2 && rng.Intn(2) == 0 {
+					h = wg2
+				}
+				r.Note(fmt.Sprintf("key-confusion pass %d %s [%s]", pass, pb.q, ref.OptionsString(pb.lo)))
+				got, err, closed := ref.Call(ctx, h, pb.q, ref.CopyOptions(pb.lo))
+				r.Eval(1)
+				if !closed {
+					r.Violation("channel-not-closed/"+pb.q.Method, "memoized lookup did not close its channel", pb.q.String())
+				}
+				if (err != nil) != werr[i] {
+					r.Violation("read-error-differs/no-write", fmt.Sprintf("%s [%s]: memoizer err=%v, wrapped store error=%v", pb.q, ref.OptionsString(pb.lo), err, werr[i]), nil)
+				} else if g := strings.Join(got, "\x1c"); g != want[i] {
+					r.Violation("read-differs/no-write/"+pb.q.Method, fmt.Sprintf("with no write at all, %s [%s] through the memoizer returns %d elements, the wrapped store %d (another lookup's memoized answer?)", pb.q, ref.OptionsString(pb.lo), len(got), len(strings.Split(want[i], "\x1c"))),
+						map[string]interface{}{"data": tripleStrings(data), "lookup": pb.q.String(), "options": ref.OptionsString(pb.lo), "through_memoizer": showAll(got, 6), "pass": pass})
+				}
+			}
+		}
+		// Exist for stored and not-stored triples, twice
+		for pass := 0; pass < 2; pass++ {
+			for _, s := range ns {
+				for _, p := range ps {
+					for _, o := range os {
+						t := gen.MustTriple(s, p, o)
+						a, _ := wg.Exist(ctx, t)
+						b, _ := pg.Exist(ctx, t)
+						r.Eval(1)
+						if a != b {
+							r.Violation("exist-differs/no-write", fmt.Sprintf("Exist(%s) through the memoizer is %v, the wrapped store says %v", t, a, b), nil)
+						}
+					}
+				}
+			}
+		}
+		if confusable > 0 {
+			r.Nontrivial(fmt.Sprintf("confusion|%v", tripleStrings(data)))
+		}
+	}
+}
+
 func init() {
 	register(&rt.Check{
 		ID:    "C19",
 		Level: "exploration",
-		Rule: "(a) lockstep histories: one random sequence of writes, the eleven reads and Exist with every kind of option value (window, filters, LatestAnchor, MaxElements x Offset, pairs differing only in Offset), repeated reads, through 1-3 handles obtained from the wrapper, applied to memoization.New(memory.NewStore()) and to a plain memory store; (b) hook-level interleavings: a writer (one add or remove) and one or two readers (same lookup, same or another handle) steered by a scheduler at the memoizer's verif yield points, every maximal schedule enumerated by re-execution (W+R complete, W+R+R sampled in quick / complete in thorough); (c) the same mix un-steered with 8 goroutines under -race, recorded and checked with the C07 porcupine model; " +
+		Rule: "(a) lockstep histories: one random sequence of writes, the eleven reads and Exist with every kind of option value (window, filters, LatestAnchor, MaxElements x Offset, pairs differing only in Offset), repeated reads, through 1-3 handles obtained from the wrapper, applied to memoization.New(memory.NewStore()) and to a plain memory store; (b) hook-level interleavings: a writer (one add or remove) and one or two readers (same lookup, same or another handle) steered by a scheduler at the memoizer's verif yield points, every maximal schedule enumerated by re-execution (W+R complete, W+R+R sampled in quick / complete in thorough); (c) the same mix un-steered with 8 goroutines under -race, recorded and checked with the C07 porcupine model; (d) key confusion: with no write at all, every lookup method x arguments carrying the same identifiers in different roles (node as subject and as object, predicate as predicate and as reified object) x 24 option values differing in one field, each called three times in shuffled order through two handles and compared with the plain store; (e) a lookup that fails part way followed by the same lookup; " +
 			"oracle: every read through the wrapper equals the plain store's answer at that moment; after quiescence a read through every handle equals the wrapped store; porcupine Illegal = violation; non-trivial: (a) a repeated read with a write in between and a pair of reads differing only in Offset, (b) a reader step while the writer sits between cache clear and forwarded write; distinct by history / schedule",
 		Assume: []string{"the yield hooks lie outside graphMemoizer.mu, so a granted participant never waits for a parked one", "W+R+R schedules are sampled in the quick tier"},
 		Floor:  30,
 		Phases: func(tier string, seed int64) []rt.Phase {
-			n, steps, wrr, st := 208, 60, 400, 160
+			n, steps, wrr, st, kc := 208, 60, 400, 160, 1
 			if tier == "thorough" {
-				n, steps, wrr, st = 3008, 80, 0, 2000
+				n, steps, wrr, st, kc = 3008, 80, 0, 2000, 12
 			}
 			return []rt.Phase{
 				{Name: "lockstep", N: 16, Run: func(i int, r *rt.Rec) { c19Lockstep(r, gen.Rng(seed, "c19a", i), n/16, steps) }},
@@ -556,6 +718,7 @@ func init() {
 					// add / remove batches, Exist and full listing after every step
 					c01Histories(r, gen.Rng(seed, "c19h", i), n/32+1, 40, func(s storage.Store) storage.Store { return memoization.New(s) })
 				}},
+				{Name: "key-confusion", N: 8, Run: func(i int, r *rt.Rec) { c19KeyConfusion(r, gen.Rng(seed, "c19k", i), kc) }},
 				{Name: "fault-then-read", N: 8, Run: func(i int, r *rt.Rec) { c19FaultThenRead(r, gen.Rng(seed, "c19f", i), n/16+4) }},
 				{Name: "interleavings", N: 6, Exhaustive: tier == "thorough", Run: func(i int, r *rt.Rec) { c19Interleavings(r, i, wrr, gen.Rng(seed, "c19b", i)) }},
 				{Name: "stress-race", N: 16, Race: true, Run: func(i int, r *rt.Rec) { c19Stress(r, gen.Rng(seed, "c19c", i), st/16) }},
